@@ -224,10 +224,7 @@ class ndarray(object):
 
     @property
     def size(self):
-        r = 1
-        for s in self.shape:
-            r = r * s
-        return r
+        return _product(list(self._shape)) if self._shape else 1
 
     @property
     def T(self):
@@ -2100,15 +2097,214 @@ def unique(a, **kw):
 
 def prod(a, axis=None, **kw):
     if isinstance(a, (list, tuple)):
-        r = 1
-        for x in a:
-            r = r * x
-        return r
+        return _product(list(a))
     raise OutOfSubset("np.prod of a symbolic array")
 
 
+# ---- row-major reshape ---------------------------------------------------------------------------------------------------
+# NumPy's reshape keeps the row-major (C) order of the cells.  dimarray only ever merges a run of adjacent dimensions into one
+# (flatten) or splits one dimension into a run (unflatten); the model recognises exactly those two, structurally, from the
+# FACTORS of the extents: an extent computed as a product (np.prod([n0, n1]) or n0 * n1) remembers its factors.  The merged
+# position of (i, j) is pair(i, j) -- i * n1 + j, written as arithmetic when n1 is a numeral and as an uninterpreted bijection
+# [0,n0) x [0,n1) <-> [0,n0*n1) with its inverse (fst, snd) otherwise, so that no nonlinear arithmetic reaches the solver.
+_PRODUCTS = {}      # id of the z3 term of an extent -> (term, [factor terms])
+
+
+def _product(factors):
+    fs = [f for f in factors]
+    cs = [conc(f) for f in fs]
+    if builtins.all(c is not None for c in cs):
+        r = 1
+        for c in cs:
+            r *= c
+        return r
+    if len(fs) == 1:
+        return _ext(fs[0])
+    t = zint(fs[0])
+    for f in fs[1:]:
+        t = t * zint(f)
+    t = z3.simplify(t)
+    if t.get_id() not in _PRODUCTS:
+        _PRODUCTS[t.get_id()] = (t, [zint(f) for f in fs])
+    c = ctx()
+    cm = c.__dict__.setdefault("memo", {})
+    key = ("product-facts", t.get_id())
+    if key not in cm:
+        cm[key] = True
+        zs = [zint(f) for f in fs]
+        c.add(t >= 0, (t == 0) == z3.Or(*[z == 0 for z in zs]))
+        if len(zs) == 2:
+            a_, b_ = zs
+            c.add(z3.Implies(b_ >= 1, t >= a_), z3.Implies(a_ >= 1, t >= b_), z3.Implies(a_ == 1, t == b_), z3.Implies(b_ == 1, t == a_))
+    return mkint(t)
+
+
+def _factors_of(x):
+    """the factors of an extent that was computed as a product, as a MULTISET (z3 normalises the order of a product's
+    arguments, so n1*n0 and n0*n1 are one term): which dimension comes first is read off the array being reshaped"""
+    t = zint(x) if not isinstance(x, int) else None
+    if t is None:
+        return None
+    t = z3.simplify(t)
+    e = _PRODUCTS.get(t.get_id())
+    return e[1] if e is not None and e[0].eq(t) else None
+
+
+def _same_multiset(xs, ys):
+    ys = list(ys)
+    for x in xs:
+        for k, y in enumerate(ys):
+            if _same_extent(x, y):
+                del ys[k]
+                break
+        else:
+            return False
+    return not ys
+
+
+def _same_extent(x, y):
+    cx, cy = conc(x), conc(y)
+    if cx is not None and cy is not None:
+        return cx == cy
+    zx, zy = z3.simplify(zint(x)), z3.simplify(zint(y))
+    if zx.eq(zy):
+        return True
+    # extents that went through slicing arithmetic (If(n <= 0, 0, n) ...): equal if the path's facts say so
+    return bool(ctx().implied(zx == zy))
+
+
+def pairing(n0, n1):
+    """-> (pair, fst, snd) for the row-major merge of extents (n0, n1)"""
+    c1 = conc(n1)
+    if c1 is not None:
+        if c1 == 0:
+            return (lambda i, j: z3.IntVal(0)), (lambda g: z3.IntVal(0)), (lambda g: z3.IntVal(0))
+        return (lambda i, j: zint(i) * c1 + zint(j)), (lambda g: zint(g) / c1), (lambda g: zint(g) % c1)
+    c = ctx()
+    z0, z1 = z3.simplify(zint(n0)), z3.simplify(zint(n1))
+    cm = c.__dict__.setdefault("memo", {})
+    key = ("pairing", z0.get_id(), z1.get_id())
+    if key not in cm:
+        # the same extents written differently (n and If(n <= 0, 0, n) after slicing arithmetic) share ONE pairing
+        for k2, v2 in list(cm.items()):
+            if isinstance(k2, tuple) and k2 and k2[0] == "pairing" and c.implied(z3.And(v2[3] == z0, v2[4] == z1)):
+                cm[key] = v2
+                break
+    if key not in cm:
+        k = len([x for x in cm if isinstance(x, tuple) and x and x[0] == "pairing"])
+        pair = z3.Function("rowmajor!%d" % k, z3.IntSort(), z3.IntSort(), z3.IntSort())
+        fst = z3.Function("rowmajor!%d.fst" % k, z3.IntSort(), z3.IntSort())
+        snd = z3.Function("rowmajor!%d.snd" % k, z3.IntSort(), z3.IntSort())
+        N = zint(_product([z0, z1]))
+        i, j, g = z3.Int("rm!i"), z3.Int("rm!j"), z3.Int("rm!g")
+        c.lib("reshape/row-major-pairing")
+        c.add(z3.ForAll([i, j], z3.Implies(z3.And(0 <= i, i < z0, 0 <= j, j < z1),
+                                          z3.And(fst(pair(i, j)) == i, snd(pair(i, j)) == j, 0 <= pair(i, j), pair(i, j) < N)),
+                        patterns=[pair(i, j)]))
+        c.add(z3.ForAll([g], z3.Implies(z3.And(0 <= g, g < N),
+                                       z3.And(0 <= fst(g), fst(g) < z0, 0 <= snd(g), snd(g) < z1, pair(fst(g), snd(g)) == g)),
+                        patterns=[fst(g), snd(g)]))
+        cm[key] = (pair, fst, snd, z0, z1)
+    pair, fst, snd = cm[key][:3]
+    return (lambda a_, b_: pair(zint(a_), zint(b_))), (lambda g_: fst(zint(g_))), (lambda g_: snd(zint(g_)))
+
+
+def rowmajor(idx, sizes):
+    """position of the coordinate `idx` in the row-major merge of dimensions of extents `sizes` (left-nested pairing)"""
+    g, n = idx[0], sizes[0]
+    for k in range(1, len(idx)):
+        pair, _, _ = pairing(n, sizes[k])
+        g = pair(g, idx[k])
+        n = _product([n, sizes[k]])
+    return g
+
+
+def unrowmajor(g, sizes):
+    """the coordinate whose row-major position among extents `sizes` is g"""
+    prefix = [sizes[0]]
+    for k in range(1, len(sizes)):
+        prefix.append(_product([prefix[-1], sizes[k]]))
+    out = []
+    for k in range(len(sizes) - 1, 0, -1):
+        _, fst, snd = pairing(prefix[k - 1], sizes[k])
+        out.append(snd(g))
+        g = fst(g)
+    out.append(zint(g))
+    return out[::-1]
+
+
 def _reshape(a, shape):
-    raise OutOfSubset("reshape (row-major model not loaded)")
+    new = []
+    for s_ in shape:
+        cs = conc(s_)
+        new.append(cs if cs is not None else z3.simplify(zint(s_)))
+    if builtins.any(isinstance(x, int) and x < 0 for x in new):
+        if len(new) == 1 and a.ndim >= 1:
+            new = [_raw(_product(list(a._shape)))]        # reshape(-1): ravel
+        else:
+            raise OutOfSubset("reshape with -1 among several extents")
+    old = list(a._shape)
+    f = a.snapshot()
+    plan = []
+    i = j = 0
+    while i < len(old) or j < len(new):
+        if i < len(old) and j < len(new) and _same_extent(old[i], new[j]):
+            plan.append(("keep", i, j, 1)); i += 1; j += 1
+            continue
+        fs = _factors_of(new[j]) if j < len(new) else None
+        if fs is not None and len(fs) <= len(old) - i and _same_multiset(old[i:i + len(fs)], fs):
+            plan.append(("merge", i, j, len(fs))); i += len(fs); j += 1
+            continue
+        fs = _factors_of(old[i]) if i < len(old) else None
+        if fs is not None and len(fs) <= len(new) - j and _same_multiset(new[j:j + len(fs)], fs):
+            plan.append(("split", i, j, len(fs))); i += 1; j += len(fs)
+            continue
+        if builtins.all(isinstance(x, int) for x in old + new):
+            return _reshape_concrete(a, f, old, new)
+        raise OutOfSubset("reshape %r -> %r: neither a merge of adjacent dimensions nor a split of one" % (old, new))
+    def fn(*idx):
+        src = [None] * len(old)
+        for kind_, i_, j_, k_ in plan:
+            if kind_ == "keep":
+                src[i_] = idx[j_]
+            elif kind_ == "merge":
+                for t, v in enumerate(unrowmajor(idx[j_], old[i_:i_ + k_])):
+                    src[i_ + t] = v
+            else:
+                src[i_] = rowmajor(list(idx[j_:j_ + k_]), new[j_:j_ + k_])
+        return f(*src)
+    ctx().lib("reshape/row-major")
+    return ndarray.from_fn(fn, tuple(new), a.kind, a.elem)
+
+
+def _raw(x):
+    c = conc(x)
+    return c if c is not None else z3.simplify(zint(x))
+
+
+def _reshape_concrete(a, f, old, new):
+    """all extents are numerals: the general row-major rule, as arithmetic with constant strides"""
+    tot_o = tot_n = 1
+    for x in old:
+        tot_o *= x
+    for x in new:
+        tot_n *= x
+    if tot_o != tot_n:
+        raise ValueError("cannot reshape array of size %d into shape %r" % (tot_o, tuple(new)))
+    def fn(*idx):
+        flat = z3.IntVal(0)
+        for x, n_ in zip(idx, new):
+            flat = flat * n_ + zint(x)
+        src = []
+        for n_ in reversed(old):
+            if n_ == 0:
+                src.append(z3.IntVal(0))
+            else:
+                src.append(flat % n_)
+                flat = flat / n_
+        return f(*reversed(src))
+    ctx().lib("reshape/row-major")
+    return ndarray.from_fn(fn, tuple(new), a.kind, a.elem)
 
 
 _NO_AXIS = object()
@@ -2244,6 +2440,8 @@ def _keep(shape, axis):
 
 def _make_reducer(name, rule):
     def f(a, axis=None, **kw):
+        if name == "prod" and isinstance(a, (list, tuple)) and builtins.all(isinstance(x, (int, SymInt)) or (z3.is_expr(x) and z3.is_int(x)) for x in a):
+            return _product(list(a))         # np.prod of a list of extents: a product that remembers its factors
         if kw.pop("keepdims", False):
             raise OutOfSubset("keepdims")
         return _along_axis(name, a, axis, kw, rule)
